@@ -104,13 +104,25 @@ def rule_table(ctx):
             asg['result'] = result
         sel = [p for cm, p in keyed if all(asg[r] in labs for r, labs in cm.items() if r in asg)]
         got = sorted(set(classify(p.outcome) for p in sel))
+        # `Ok(self.rsync.as_ref().map(|rsync| { rsync.load_module(..); Repository::rsync(rsync) }))`: the rsync tail as one
+        # expression - "rsync if configured, else nothing" - after the closure has been checked to do exactly that
+        mm = [re.match(r'^unknown:Result::Ok\(call:Option::map\(self\.rsync,.*\{closure#(\d+)\}.*\)\)$', g) for g in got]
+        if got and all(mm):
+            good = True
+            for m_ in mm:
+                cls = [c for c in ctx.closures(b) if c.nid.endswith('{closure#%s}' % m_.group(1))]
+                good = good and len(cls) == 1 and bool(cls[0].calls('collector::rsync::Run::load_module')) and \
+                    all('Repository::rsync' in (cp.outcome or '') for cp in enumerate_paths(cls[0], ctx.facts))
+            if good:
+                got = ['rsync' if rsync == 'Some' else 'none']
+                rsync_in_closure = True
         exp = expected(notify, rrdp, result, policy, rsync)
         ok = got == [exp]
         key = 'row:notify=%s,rrdp=%s,result=%s,policy=%s,rsync=%s' % (notify, rrdp, result, policy, rsync)
         if ok:
             # the transport returned has been loaded on that path
             for p in sel:
-                if exp == 'rsync' and not p.called('collector::rsync::Run::load_module'):
+                if exp == 'rsync' and not p.called('collector::rsync::Run::load_module') and not (mm and all(mm)):
                     ok = False
                     got = ['rsync-without-load_module']
                 if exp == 'rrdp' and not p.called('collector::rrdp::base::Run::load_repository'):
@@ -129,6 +141,17 @@ def rule_table(ctx):
 
 
 def rule_try_update(ctx):
+    # `match (is_updated, is_current, best_before) {..}`: a test of `(a, b, c).0` is a test of `a`
+    from lib import tables as _t
+    old = _t.OPTS['tuple_proj']
+    _t.OPTS['tuple_proj'] = True
+    try:
+        _try_update(ctx)
+    finally:
+        _t.OPTS['tuple_proj'] = old
+
+
+def _try_update(ctx):
     b = ctx.body('collector::rrdp::base::RepositoryUpdate::try_update')
     paths = enumerate_paths(b, ctx.facts)
     n = 0
